@@ -40,15 +40,8 @@ theorem clip_eq_min (r : IndexRange) (max : Nat) (hmax : max ≤ usizeMax) :
 /-- `IndexRange::map` on a clipped range never overflows, for every coordinate. -/
 theorem map_total (r : IndexRange) (max : Nat) (hmax : max ≤ usizeMax) (i : Nat) :
     (r.clip max).map i =
-      .ok (if i < (r.clip max).length then some (i + r.start) else none) := by
-  obtain ⟨x, hx, hs⟩ := IndexRange.map_spec (r.clip max) max hmax (IndexRange.clip_clipped r max hmax) i
-  simp only [IndexRange.map] at hx ⊢
-  by_cases h : i < (r.clip max).length
-  · have : i + r.start ≤ usizeMax := by
-      have := IndexRange.clip_clipped r max hmax
-      simp only [IndexRange.Clipped, IndexRange.clip_start] at this; omega
-    simp [h, IndexRange.clip_start, cadd_ok this]
-  · simp [h]
+      .ok (if i < (r.clip max).length then some (i + r.start) else none) :=
+  IndexRange.map_clip_eq r max hmax i
 
 /-- D-06: the pinned `clip` panics on `IndexRange::new(1, usize::MAX)`. -/
 theorem pre_clip_panics : IndexRange.clipPre ⟨1, usizeMax⟩ 2 = .panic .overflow := by decide
